@@ -57,6 +57,7 @@ FEATURES_B = [
     "stoch_period_only", "mixed_discrete", "one_period", "restricted_stochastic_state", "filter_on_continuous",
     "filter_via_aux", "next_for_non_state", "single_point_choice_grid", "discrete_only", "no_constraints_no_cont",
     "two_cont_choices", "constraint_with_aux_param", "period_everywhere", "stoch_dep_on_choice_only",
+    "default_valued_params", "default_valued_some",
 ]
 
 
@@ -213,6 +214,15 @@ def lattice_desc(features, rng):
             if not any(k.endswith("_filter") for k in fns):
                 fns["rs_filter"] = [["h", "d"], "xp.logical_or(d <= 1, h == 0)"]
                 params["rs_filter"] = {}
+    if "default_valued_params" in F or "default_valued_some" in F:
+        # parameters written with Python default values (`def utility(c, d, dis=0.4)`): legal
+        # signatures; the template still lists them and the values passed in params are used
+        some = "default_valued_some" in F and "default_valued_params" not in F
+        for k, v in fns.items():
+            pn = [a for a in v[0] if a in params.get(k, {})]
+            if some:
+                pn = pn[1:] if len(pn) > 1 else (pn if k != "utility" else [])
+            v[0] = [a for a in v[0] if a not in pn] + [f"{a}={params[k][a] + 0.25!r}" for a in pn]
     return {"n_periods": T, "states": states, "choices": choices, "functions": [[k, v[0], v[1]] for k, v in fns.items()],
             "stochastic": stochastic, "tables": tables, "params": params}
 
